@@ -12,7 +12,7 @@ ID = "C14"
 LEVEL = "fault_enumeration"
 RULE = ("a case = one malformed-but-checksum-valid response frame (or a mix of such frames with one good state frame) that the simulated "
         "device returns as the answer to every command of refresh(), apply(), get_capabilities(), toggle_display() and start_self_clean(). "
-        "Families: every valid response kind with its body truncated to every shorter length (incl. the empty body and the empty frame, "
+        "The client is fresh or has learned a full capability profile first. Families: every valid response kind with its body truncated to every shorter length (incl. the empty body and the empty frame, "
         "checks recomputed), raw frame truncations with the last byte fixed up, every count/size byte set to every value 0..255, every "
         "response id 0..255 x frame types {2,3,4,5,6,0xA0} with random bodies, mixes [bad.., good, bad..]. Oracle: no exception escapes any "
         "of the five operations; in a mix the good frame's state (reference decode) is visible afterwards. distinct = distinct frame bytes "
@@ -55,6 +55,16 @@ def _frames(ctx, rng):
             c2[1] = (m - 1) & 0xFF
             c2[-1] = acframe.checksum(c2[1:-1])
             yield f"trunc-raw-{kind}", bytes(c2)
+    # truncated (legacy-length) state responses for every mode / flag byte combination: decodable, leave optional fields unknown,
+    # and are followed by apply() etc. on the same object
+    sbody = bytearray(valid["state"][10:-2])
+    for mode in range(8):
+        for ln in (16, 17, 18, 19, 20, 21, 22):
+            for b1 in (0x00, 0x01):
+                b = bytearray(sbody[:ln])
+                b[1] = b1
+                b[2] = (mode << 5) | (b[2] & 0x1F)
+                yield "short-state-modes", _rebuild(bytes(b), acframe.FT_QUERY, "crc")
     # count / size fields
     caps_body = bytearray(valid["caps"][10:-2])
     props_body = bytearray(valid["props"][10:-2])
@@ -127,10 +137,19 @@ def generate(ctx, rng):
     for fam, frame in _frames(ctx, rng):
         batch.append({"family": fam, "frame": frame})
         if len(batch) == BATCH:
-            yield ("frames", n), {"kind": "frames", "items": batch}
+            # every third batch runs on a client that has learned a full capability profile first (properties registered,
+            # energy / humidity polling on): the same frames then meet different client state
+            yield ("frames", n), {"kind": "frames", "items": batch, "with_caps": n % 3 == 1}
             batch, n = [], n + 1
     if batch:
-        yield ("frames", n), {"kind": "frames", "items": batch}
+        yield ("frames", n), {"kind": "frames", "items": batch, "with_caps": False}
+    # the property / capability / short-state families again, all of them on a client with capabilities
+    fr = [x for x in _frames(ctx, rng) if x[0].startswith(("props-", "short-state", "trunc-body-props", "trunc-body-state", "group", "caps-value"))]
+    rng.shuffle(fr)
+    fr = fr[: (600 if ctx.tier == "quick" else 6000)]
+    for i in range(0, len(fr), BATCH):
+        n += 1
+        yield ("frames-caps", n), {"kind": "frames", "items": [{"family": f, "frame": b} for f, b in fr[i:i + BATCH]], "with_caps": True}
     # mixes
     pool = [f for _, f in _frames_small(rng)]
     for j in range(200 if ctx.tier == "quick" else 6000):
@@ -213,8 +232,17 @@ def run_case(ctx, case):
     dev.on_exchange = lambda conn, req, packets, meta: [(0, dev.wrap(conn, f)) for f in cur["frames"]]
     out = []
 
-    async def go(loop):
+    full_caps = acframe.build(acprops.build_caps(c13.CAPS0 + [(0x0043, b"\x01"), (0x0048, b"\x02")], False), acframe.FT_QUERY)
+
+    async def fresh():
         ac = AC(ip=dev.host, port=dev.port, device_id=dev.device_id)
+        if case.get("with_caps"):
+            cur["frames"] = [full_caps]
+            await ac.get_capabilities()
+        return ac
+
+    async def go(loop):
+        ac = await fresh()
         for it in case["items"]:
             cur["frames"] = [bytes(it["frame"])]
             for op in OPS:
@@ -223,13 +251,14 @@ def run_case(ctx, case):
                     out.append((it, op, None))
                 except Exception as e:  # noqa: BLE001
                     out.append((it, op, e))
-                    ac = AC(ip=dev.host, port=dev.port, device_id=dev.device_id)
+                    ac = await fresh()
+                    cur["frames"] = [bytes(it["frame"])]
 
     H.run_virtual(go, net)
     for it, op, exc in out:
         frame = bytes(it["frame"])
         fam = it["family"]
-        ctx.count((frame, op), nontrivial=acframe.outer_ok(frame) if len(frame) >= 2 else True, kind=f"{fam.split('-')[0]}-{op}",
+        ctx.count((frame, op, bool(case.get("with_caps"))), nontrivial=acframe.outer_ok(frame) if len(frame) >= 2 else True, kind=f"{fam.split('-')[0]}-{op}",
                   sample={"family": fam, "frame": frame, "op": op} if fam.startswith("caps-size") else None)
         if exc is not None:
             ctx.violation(_mechanism(fam, exc), f"{op} raised {type(exc).__name__}: {exc} for a {fam} response", {"kind": "frames", "items": [it]},
